@@ -5,7 +5,7 @@
     root, transcribed from mfs/{ops,dir,file,fd,root}.go ([m_step]); [abs] = the tree
     a mechanism state shows.  [flags_off] = both defects of the current Mv repaired. *)
 From Coq Require Import List ZArith Bool NArith.
-From V Require Import lib.Verdict model.M_C19 proofs.P_C19.
+From V Require Import lib.Verdict model.M_C19 proofs.P_C19 proofs.P_C19_more.
 Import ListNotations.
 Open Scope Z_scope.
 
@@ -54,6 +54,37 @@ Theorem C19_sync : forall o, wf o ->
   abs (sync o) = abs o /\ persnode (sync o) = abs o /\ wf (sync o).
 Proof. exact sync_spec. Qed.
 Print Assumptions C19_sync.
+
+(** Specification trees stay well-formed (unique names in every directory), for all histories. *)
+Theorem C19_spec_wellformed : forall ops t, wfn t -> wfn (fst (t_run t ops)).
+Proof. exact t_run_wfn. Qed.
+Print Assumptions C19_spec_wellformed.
+
+(** C19_failed_unchanged_partial.  FULL STATEMENT WANTED: for every operation [a],
+      wf o -> is_ok (snd (m_step flags_off o a)) = false -> abs (fst (m_step flags_off o a)) = abs o.
+    PROVED: the same for every operation except Mv.  MISSING: Mv — its failures before anything
+    is modified are covered by the refinement to [t_mv], but that the two late failure points
+    (AddChild at the destination after a destination FILE was unlinked; the final Unlink of the
+    source) cannot occur is not proved; [check_case] evaluates "error => tree unchanged" along
+    the specification run of every case instead ([t_failed_unchanged]). *)
+Theorem C19_failed_unchanged_partial : forall o a, wf o -> is_mv a = false ->
+  is_ok (snd (m_step flags_off o a)) = false -> abs (fst (m_step flags_off o a)) = abs o.
+Proof. exact mech_failed_unchanged. Qed.
+Print Assumptions C19_failed_unchanged_partial.
+
+(** Lookups, listings, reads and flushes never change the tree. *)
+Theorem C19_queries_unchanged : forall t p, wfn t ->
+  fst (t_step t (OFlush p)) = t /\ fst (t_step t (OStat p)) = t /\
+  fst (t_step t (OList p)) = t /\ fst (t_step t (ORead p)) = t.
+Proof. exact queries_unchanged. Qed.
+Print Assumptions C19_queries_unchanged.
+
+(** non-vacuity of the hypotheses: a failing mkdir on a well-formed, non-empty state *)
+Example C19_failed_example :
+  let o := fst (m_run flags_off (load newdir) [OMkdir [0; 2] true false; OCreate [0; 4]]) in
+  snd (m_step flags_off o (OMkdir [0; 4; 1] true false)) = RErr EOther /\
+  abs (fst (m_step flags_off o (OMkdir [0; 4; 1] true false))) = abs o.
+Proof. vm_compute. split; reflexivity. Qed.
 
 (** The two defects of the current code: with the flag ON (what mfs.Mv does today) the
     mechanism deviates from the specification; the witnesses are replayed on the real
